@@ -166,3 +166,13 @@ claim("C09",
       "policy semantics as documented in ExecutionCounters (no tolerance configured = fail fast)",
       "CrossHair symbolic execution (z3) of the real executor/counters code under a solver-driven pool model + z3 FP query from the AST",
       "DESIGN.md §3 C09")
+claim("C07",
+      "(a) SX per handler: every suspension of step / wait_for_condition / wait / invoke / callback.result over every reachable record is preceded by a SYNCHRONOUS "
+      "record that lets the backend wake the execution (or such a record pre-exists) and a timed suspension carries the recorded delay; (b) executor world: the real "
+      "executor with branches that succeed / fail / park / park until t / resume after a park / never finish, solver-chosen completion order and timer activity: "
+      "SuspendExecution only when no branch is running or waiting to start, earliest parked timestamp, one synchronous refresh checkpoint per resubmission, no "
+      "deadlock unless a branch itself never finishes, no livelock within 40 actions; (c) composed executions reach SUCCEEDED/FAILED within 6 invocations under "
+      "every crash point (lemmas shared with C02).",
+      "liveness is bounded safety (action/invocation bounds); unbounded-time liveness and OS scheduler fairness are outside the claim; pool/timer thread modelled",
+      "CrossHair symbolic execution (z3) of the real executors, ConcurrentExecutor/TimerScheduler under a solver-driven pool model, and composed wrapper runs",
+      "DESIGN.md §3 C07")
